@@ -18,7 +18,7 @@ def search_jobs(prop, tier):
     out.append(Job(prop + ".STACK-GRAPH", H, "ob_stack_graph", env={"VQ_NMAX": str(nmax)}, timeout=900,
                    bounds="n <= {} matches, every adjacency table (symbolic boolean matrix through the separator stub)".format(nmax),
                    functions=[fn_id(C._regex_stack)], stubs=["`regex.compile(r'\\s*')` answers from a symbolic boolean table"], site="_regex_stack"))
-    for ti in range(5):
+    for ti in ((0, 1, 3) if tier == "quick" else range(5)):
         out.append(Job("{}.STACK-ADJ[text{}]".format(prop, ti), H, "ob_stack_adj", env={"VQ_TI": str(ti)}, timeout=900, bounds="two matches with symbolic spans over one concrete 6-char text (5 texts with different blanks)",
                        functions=[fn_id(C._regex_stack)], stubs=["`\\s*` fullmatch modelled by str.strip"], site="_regex_stack"))
     out.append(Job(prop + ".WINDOW", H, "ob_window", timeout=900, bounds="sequences <= 4, rule patterns <= 3, predicate outcomes a symbolic boolean table",
